@@ -2,12 +2,18 @@
    PROVED: for any number of threads and any calls whose lock requests are taken in strictly increasing rank order
    (store lock < database lock < allocator lock < file lock < log mutex), every reachable state of the lock LTS in
    which some call has not returned has an enabled step; the skeletons of the API calls follow that order.
+   PROVED (dynamic form, the one tied to the code): threads are arbitrary programs of acquire / release actions (locks
+   taken and released any number of times inside a call); if every acquisition happens while the thread holds only
+   locks of strictly lower rank and a finished program holds nothing, no reachable state is a deadlock
+   (C07_no_deadlock_dynamic).  That discipline is what the lock-order tracer (harness/h_lockord.c: every pthread lock
+   operation of the library interposed, lock objects classified) checks on the real acquisition sequences of every
+   API call in checks/C07.py, with the rank table read from coq/CC/LockOrder.v.
    NOT proved (open goals, kept visible): `atomic_under_locks` (conflict serialisability of the data steps), the
    worker-count / condition-variable handshake of exclusive sections, writer preference of the rwlocks, absence of
    data races on store memory.  Those are sampled on the implementation: every concurrent execution must have a
    linearisation (exact search) and must terminate. *)
 Require Import List ZArith Lia. Import ListNotations.
-Require Import IW.CC.KvLocks IW.CC.KvLocks_proofs.
+Require Import IW.CC.KvLocks IW.CC.KvLocks_proofs IW.CC.LockOrder IW.CC.LockOrder_proofs.
 
 Theorem C07_no_deadlock_partial :
   forall (calls : list (list req)) (s : state),
@@ -21,6 +27,35 @@ Theorem C07_api_skeletons_ordered :
   forall db, increasing (call_put db) /\ increasing (call_get db) /\ increasing call_db_create /\ increasing call_sync.
 Proof. exact skeletons_increasing. Qed.
 Print Assumptions C07_api_skeletons_ordered.
+
+(* the dynamic lock-order theorem: any number of threads, programs of any length *)
+Theorem C07_no_deadlock_dynamic :
+  forall (progs : list (list act)) (s : dstate),
+    Forall (well_ranked []) progs ->
+    dreach (map (fun p => {| dheld := []; dprog := p |}) progs) s ->
+    (exists t, In t s /\ dprog t <> []) -> exists i, dcan_step s i = true.
+Proof. exact dno_deadlock_reachable. Qed.
+Print Assumptions C07_no_deadlock_dynamic.
+
+(* Non-vacuity and sharpness: a put-like program (store R, db W, then repeatedly file lock R / log mutex, allocator W
+   with the file lock taken inside it) is well ranked; the same program with the allocator lock requested while the
+   file lock is still held (the order a careless refactoring of _sblk_destroy produces) is not, and two such threads
+   reach a state where nobody can move. *)
+Definition ex_good : list act :=
+  [Acq ((1,0),Rd); Acq ((2,1),Wr); Acq ((4,0),Rd); Acq ((5,0),Wr); Rel (5,0); Rel (4,0);
+   Acq ((3,0),Wr); Acq ((4,0),Wr); Rel (4,0); Rel (3,0); Rel (2,1); Rel (1,0)].
+Definition ex_bad_a : list act := [Acq ((4,0),Rd); Acq ((3,0),Wr); Rel (3,0); Rel (4,0)].
+Definition ex_bad_b : list act := [Acq ((3,0),Wr); Acq ((4,0),Wr); Rel (4,0); Rel (3,0)].
+Example C07_dynamic_examples :
+  well_ranked [] ex_good /\ ~ well_ranked [] ex_bad_a /\
+  (let s := [ {| dheld := [((4,0),Rd)]; dprog := tl ex_bad_a |}; {| dheld := [((3,0),Wr)]; dprog := tl ex_bad_b |} ] in
+   dcan_step s 0 = false /\ dcan_step s 1 = false).
+Proof.
+  split; [|split].
+  - cbn. unfold rank. cbn. repeat split; intros x Hx; repeat (destruct Hx as [<-|Hx]; [cbn; lia|]); destruct Hx.
+  - cbn. unfold rank. intros [_ [H _]]. specialize (H ((4,0),Rd) (or_introl eq_refl)). cbn in H. lia.
+  - vm_compute. split; reflexivity.
+Qed.
 
 (* Non-vacuity: two threads, a writer on database 1 and a reader on database 1: from the state where the writer holds
    store(R)+db(W) the reader (which holds store(R)) is blocked and the writer is enabled. *)
